@@ -34,9 +34,10 @@ VARIABLES loc,      \* loc[b]: ssids the local client of b is subscribed to
                     \*   Gossip() hands out the state itself, what is sent is the state at pick time) or "snap" (the
                     \*   payload gs[b][n], possibly an empty one)
           wire,     \* wire[b][n]: sequence of [kind, p]
+          fresh,    \* brokers that were restarted (a new process under the old name: empty replica, no clients yet)
           now,      \* logical clock (every clock reading is later than all earlier ones)
           merged    \* observation: number of coalescing steps so far
-gvars == <<loc, st, routes, bc, gs, up, members, live, wire, now, merged>>
+gvars == <<loc, st, routes, bc, gs, up, members, live, wire, fresh, now, merged>>
 
 Keys    == Brokers \X Brokers \X Ssids
 KeyOf(b, s) == <<b, b, s>>
@@ -62,6 +63,7 @@ GInit ==
     /\ members = [b \in Brokers |-> {}]
     /\ live = [b \in Brokers |-> [n \in Brokers |-> "none"]]
     /\ wire = [b \in Brokers |-> [n \in Brokers |-> <<>>]]
+    /\ fresh = {}
     /\ now = 1 /\ merged = 0
 
 (* how many links of b coalesce when p is queued on all of them *)
@@ -76,10 +78,12 @@ Notify(b, s, on) ==
         /\ bc' = [bc EXCEPT ![b] = [n \in Brokers |-> IF n \in Neigh(b) THEN Join(@[n], op) ELSE @[n]]]
         /\ merged' = merged + Busy(b, bc)
         /\ now' = now + 2
-ClientSub(b, s)   == /\ s \notin loc[b] /\ loc' = [loc EXCEPT ![b] = @ \cup {s}] /\ Notify(b, s, TRUE)
-                     /\ UNCHANGED <<routes, gs, up, members, live, wire>>
+(* (modelling restriction: the clients of a restarted broker do not subscribe again - their connection ids, hence their
+   keys, would be new ones) *)
+ClientSub(b, s)   == /\ b \notin fresh /\ s \notin loc[b] /\ loc' = [loc EXCEPT ![b] = @ \cup {s}] /\ Notify(b, s, TRUE)
+                     /\ UNCHANGED <<routes, gs, up, members, live, wire, fresh>>
 ClientUnsub(b, s) == /\ s \in loc[b] /\ loc' = [loc EXCEPT ![b] = @ \ {s}] /\ Notify(b, s, FALSE)
-                     /\ UNCHANGED <<routes, gs, up, members, live, wire>>
+                     /\ UNCHANGED <<routes, gs, up, members, live, wire, fresh>>
 
 (* periodic gossip: the full state is queued on the gossip bucket of every link *)
 GsBusy(b, n) == live[b][n] # "none"
@@ -92,7 +96,7 @@ QueueFull(b, ns) ==
 Periodic(b) ==
     /\ QueueFull(b, Neigh(b))
     /\ merged' = merged + Cardinality({ n \in Neigh(b) : GsBusy(b, n) })
-    /\ UNCHANGED <<loc, st, routes, bc, up, members, wire, now>>
+    /\ UNCHANGED <<loc, st, routes, bc, up, members, wire, fresh, now>>
 
 (* the sender goroutine of link b -> n: gossip bucket first, else the broadcast bucket; encode onto the wire *)
 Pick(b, n) ==
@@ -102,7 +106,7 @@ Pick(b, n) ==
             /\ gs' = [gs EXCEPT ![b][n] = Nothing] /\ live' = [live EXCEPT ![b][n] = "none"] /\ UNCHANGED bc
        ELSE /\ wire' = [wire EXCEPT ![b][n] = Append(@, [kind |-> "broadcast", p |-> bc[b][n]])]
             /\ bc' = [bc EXCEPT ![b][n] = Nothing] /\ UNCHANGED <<gs, live>>
-    /\ UNCHANGED <<loc, st, routes, up, members, now, merged>>
+    /\ UNCHANGED <<loc, st, routes, up, members, fresh, now, merged>>
 
 (* the routing table follows the activeness of the merged state: remote peer q is in the trie for ssid s iff q's
    subscription on s is active in the replica *)
@@ -110,24 +114,39 @@ RoutesOf(b, state, mem) == { <<k[1], k[3]>> : k \in { x \in Keys : x[1] # b /\ x
 (* owners of the entries a payload changed: Swarm.merge calls findPeer for each of them (the peer is created if needed) *)
 OwnersIn(dl, n) == { k[1] : k \in { x \in Keys : dl[x] # Zero /\ x[1] # n } }
 
-(* receive the head of wire b -> n: Swarm.merge; a gossip payload's delta is relayed to the other neighbours *)
+(* receive the head of wire b -> n: Swarm.merge; a gossip payload's delta is relayed to the other neighbours.
+   INTENDED (not in the code, part of the listed finding restart_stale_routes): a broker that finds a live entry of ITS
+   OWN for which it has no subscriber - the legacy of the process it replaced - withdraws it like an unsubscribe would *)
+RECURSIVE Withdraw(_, _, _)
+Withdraw(state, ks, t) ==
+    IF ks = {} THEN state
+    ELSE LET k == CHOOSE x \in ks : TRUE IN Withdraw([state EXCEPT ![k].d = t], ks \ {k}, t + 2)
+RECURSIVE WithdrawOps(_, _)
+WithdrawOps(ks, t) ==
+    IF ks = {} THEN Nothing
+    ELSE LET k == CHOOSE x \in ks : TRUE IN Join(One(k, [a |-> 0, d |-> t + 1]), WithdrawOps(ks \ {k}, t + 2))
 Deliver(b, n) ==
     /\ b # n /\ up[b][n] /\ wire[b][n] # <<>>
     /\ LET m  == Head(wire[b][n])
            dl == Delta(st[n], m.p)
-           s2 == Join(st[n], m.p)
+           j2 == Join(st[n], m.p)
+           legacy == IF GcAsCode THEN {} ELSE { k \in Keys : k[1] = n /\ IsAdded(j2[k]) /\ k[3] \notin loc[n] }
+           s2 == Withdraw(j2, legacy, now)
            m2 == members[n] \cup OwnersIn(dl, n) \cup (IF GcAsCode THEN {} ELSE {b})   \* INTENDED: hearing from a peer brings it back; the code only looks at the owners of changed entries
        IN  /\ st' = [st EXCEPT ![n] = s2]
            /\ members' = [members EXCEPT ![n] = m2]
            /\ routes' = [routes EXCEPT ![n] = RoutesOf(n, s2, m2)]
            /\ wire' = [wire EXCEPT ![b][n] = Tail(@)]
+           /\ now' = now + 2 * Cardinality(legacy)
+           /\ bc' = IF legacy = {} THEN bc
+                    ELSE [bc EXCEPT ![n] = [x \in Brokers |-> IF x \in Neigh(n) THEN Join(@[x], WithdrawOps(legacy, now)) ELSE @[x]]]
            /\ IF m.kind = "gossip" /\ dl # Nothing
               THEN /\ gs' = [gs EXCEPT ![n] = [x \in Brokers |-> IF x \in Neigh(n) \ {b}
                                                                    THEN Join(Join(@[x], IF live[n][x] = "live" THEN s2 ELSE Nothing), dl) ELSE @[x]]]
                    /\ live' = [live EXCEPT ![n] = [x \in Brokers |-> IF x \in Neigh(n) \ {b} THEN "snap" ELSE @[x]]]
                    /\ merged' = merged + Cardinality({ x \in Neigh(n) \ {b} : GsBusy(n, x) })
               ELSE UNCHANGED <<gs, live, merged>>
-    /\ UNCHANGED <<loc, bc, up, now>>
+    /\ UNCHANGED <<loc, up, fresh>>
 
 (* the connection between b and n breaks: whatever was queued or in flight between them is lost *)
 LinkDown(b, n) ==
@@ -137,13 +156,13 @@ LinkDown(b, n) ==
     /\ gs' = [gs EXCEPT ![b][n] = Nothing, ![n][b] = Nothing]
     /\ live' = [live EXCEPT ![b][n] = "none", ![n][b] = "none"]
     /\ wire' = [wire EXCEPT ![b][n] = <<>>, ![n][b] = <<>>]
-    /\ UNCHANGED <<loc, st, routes, members, now, merged>>
+    /\ UNCHANGED <<loc, st, routes, members, fresh, now, merged>>
 (* the connection comes back: each side sends its complete state down the new connection (mesh: sendAllGossipDown) *)
 LinkUp(b, n) ==
     /\ b # n /\ ~up[b][n]
     /\ up' = [up EXCEPT ![b][n] = TRUE, ![n][b] = TRUE]
     /\ live' = [live EXCEPT ![b][n] = "live", ![n][b] = "live"]        \* the buckets of a new connection are empty
-    /\ UNCHANGED <<loc, st, routes, bc, gs, members, wire, now, merged>>
+    /\ UNCHANGED <<loc, st, routes, bc, gs, members, wire, fresh, now, merged>>
 (* b's router garbage-collects the unreachable peer p (Swarm.onPeerOffline): p leaves the member list and b stops
    forwarding to it.  INTENDED: nothing else (the replicated entries of p stay; they are routed again when p is heard
    from).  THE CODE (GcAsCode) means to write a remove for every live subscription of p, but the unsubscribe handler it
@@ -162,9 +181,25 @@ PeerGC(b, p) ==
        IF GcAsCode
        THEN st' = [st EXCEPT ![b] = Tombstone(@, { <<b, k[2], k[3]>> : k \in act }, now)] /\ now' = now + Cardinality(act)
        ELSE UNCHANGED <<st, now>>
-    /\ UNCHANGED <<loc, bc, gs, up, live, wire, merged>>
+    /\ UNCHANGED <<loc, bc, gs, up, live, wire, fresh, merged>>
+
+(* broker b is replaced by a new process under the same name: its clients, replica (the subscription part is kept in
+   memory only), member list and routes are gone and all its connections break.  The other brokers keep what they had. *)
+Restart(b) ==
+    /\ loc' = [loc EXCEPT ![b] = {}]
+    /\ st' = [st EXCEPT ![b] = Nothing]
+    /\ routes' = [routes EXCEPT ![b] = {}]
+    /\ members' = [members EXCEPT ![b] = {}]
+    /\ fresh' = fresh \cup {b}
+    /\ up'   = [x \in Brokers |-> [y \in Brokers |-> IF b \in {x, y} THEN FALSE ELSE up[x][y]]]
+    /\ bc'   = [x \in Brokers |-> [y \in Brokers |-> IF b \in {x, y} THEN Nothing ELSE bc[x][y]]]
+    /\ gs'   = [x \in Brokers |-> [y \in Brokers |-> IF b \in {x, y} THEN Nothing ELSE gs[x][y]]]
+    /\ live' = [x \in Brokers |-> [y \in Brokers |-> IF b \in {x, y} THEN "none" ELSE live[x][y]]]
+    /\ wire' = [x \in Brokers |-> [y \in Brokers |-> IF b \in {x, y} THEN <<>> ELSE wire[x][y]]]
+    /\ UNCHANGED <<now, merged>>
 
 GNext == \/ \E b, n \in Brokers : LinkDown(b, n) \/ LinkUp(b, n) \/ PeerGC(b, n)
+         \/ \E b \in Brokers : Restart(b)
          \/ \E b \in Brokers, s \in Ssids : ClientSub(b, s) \/ ClientUnsub(b, s)
          \/ \E b \in Brokers : Periodic(b)
          \/ \E b, n \in Brokers : Pick(b, n) \/ Deliver(b, n)
